@@ -282,6 +282,9 @@ class Walker:
                 st.top = caller.fid
                 if fr.post is not None:
                     val = fr.post(val)
+                    if isinstance(val, tuple) and val and val[0] == "__backedge__":
+                        # synthetic loop body (closure applied by for_each / try_for_each): one iteration ends here
+                        self._finish("backedge", None, st, detail=val[1])
                 self._write(st, fr.ret_place, val)
                 if fr.ret_block is None:
                     self._finish("diverge", None, st)
@@ -369,9 +372,10 @@ class Walker:
 
     @staticmethod
     def _site_str(site):
-        if isinstance(site, tuple) and site and isinstance(site[0], tuple) and len(site) == 3 and isinstance(site[1], str):
-            # loop key
-            return "%s@bb%d" % (site[1], site[2])
+        if isinstance(site, tuple) and len(site) == 3 and isinstance(site[1], str) and isinstance(site[0], tuple):
+            # loop key: header block of a body, qualified by the inline call chain (distinct inlinings are distinct loops)
+            chain = "<-".join("%s@bb%d" % (d, b) for d, b in reversed(site[0]))
+            return "%s@bb%d%s" % (site[1], site[2], ("<-" + chain) if chain else "")
         return "<-".join("%s@bb%d" % (d, b) for d, b in reversed(site))
 
     def _place(self, st, fr, pj):
@@ -550,6 +554,8 @@ class Walker:
             if op == "Not" and is_int(a) and a[1] in (0, 1):
                 return Int(1 - a[1])
             if op == "PtrMetadata":
+                from .panics import norm_str
+                a = norm_str(a)
                 if isinstance(a, tuple) and a[0] == "call" and a[1].endswith("str::as_bytes") and len(a[2]) == 1:
                     return ("strlen", a[2][0])
                 return ("len", a)
@@ -622,10 +628,22 @@ class Walker:
             return ("discr", v, None)
         adt = rv["adt"]
         name = None
-        if isinstance(v, tuple) and v[0] == "agg":
-            name = v[2]
+        base = v
+        while isinstance(base, tuple) and base[0] == "upd":
+            # an in-place field update does not change the variant; a variant-qualified step names it
+            if base[2][0] == "f" and base[2][1] is not None and name is None:
+                name = base[2][1]
+            base = base[1]
+        if name is not None:
+            pass
+        elif isinstance(base, tuple) and base[0] == "agg":
+            name = base[2]
+        elif base in st.facts.variant:
+            name = st.facts.variant[base]
         elif v in st.facts.variant:
             name = st.facts.variant[v]
+        if name is None and base is not v:
+            v = base    # discriminate on the underlying value
         if name is not None:
             for x in variants:
                 if x["name"] == name:
@@ -767,7 +785,7 @@ class Walker:
         eff = self.effect_of(callee, args, st, self)
         if eff is not None:
             val = ("eff", eff, self._site_str(site))
-            st.trace.append(("eff", eff, tuple(args), val, site, t["span"], callee))
+            st.trace.append(("eff", eff, tuple(args), val, site, t["span"], callee, tuple(self._arg_value(st, a) for a in args)))
             self.stats["effects"] += 1
             return done(val)
 
@@ -818,7 +836,7 @@ class Walker:
         val = ("call", cn, argv, None if pure else self._site_str(site))
         key = cn
         self.stats["opaque"][key] = self.stats["opaque"].get(key, 0) + 1
-        st.trace.append(("call", cn, tuple(args), val, site, t["span"], callee, len(st.facts.order)))
+        st.trace.append(("call", cn, tuple(args), val, site, t["span"], callee, len(st.facts.order), t.get("cs")))
         for i, a in enumerate(args):
             if isinstance(a, tuple) and a[0] == "ref" and a[2]:
                 self._write(st, a[1], ("mut", val, i))
@@ -941,6 +959,12 @@ class Walker:
             if l is not None:
                 return ("val", Int(len(l.encode("utf-8"))))
             return ("val", ("strlen", a))
+        if name == "len" and len(args) == 1 and ("slice" in callee["path"] or "[T]" in (callee.get("impl_self") or "")):
+            from .panics import norm_str
+            a = norm_str(args[0])
+            if isinstance(a, tuple) and a[0] == "call" and a[1].endswith("str::as_bytes") and len(a[2]) == 1:
+                return ("val", ("strlen", a[2][0]))
+            return ("val", ("len", a))
         # --- arithmetic helpers
         if name in ("min", "max") and len(args) == 2 and (tr == "std::cmp::Ord" or cn in ("std::cmp::min", "std::cmp::max")):
             a, b = args
@@ -973,6 +997,38 @@ class Walker:
             act = self._apply_fn(st, fr, args[0], rest, None, tup)
             if act is not None:
                 return act
+        # --- internal iteration: `iter.for_each(f)` / `iter.try_for_each(f)` as a synthetic loop over the iterator
+        if name in ("for_each", "try_for_each") and tr == "std::iter::Iterator" and len(args) == 2:
+            it = args[0]
+            key = (site, "<for_each>", 0)
+            kstr = "for_each@" + self._site_str(site)
+            nxt_some = ("call", "<synthetic as std::iter::Iterator>::next", (it,), kstr + "#some")
+            nxt_none = ("call", "<synthetic as std::iter::Iterator>::next", (it,), kstr + "#none")
+            elem = ("field", nxt_some, "Some", "0")
+            act = self._apply_fn(st, fr, args[1], [elem], (lambda v, key=key: ("__backedge__", key)))
+            if act is not None and act[0] == "inline":
+                unit = ("tuple", ())
+                done_val = unit if name == "for_each" else agg("std::result::Result", "Ok", [("0", unit)])
+                span = None
+
+                def exit_alt(s2, it=it, kstr=kstr, nxt_none=nxt_none):
+                    s2.trace.append(("loop", kstr, {}, fr.body.defp))
+                    s2.trace.append(("call", "<synthetic as std::iter::Iterator>::next", (it,), nxt_none, site, "", None, len(s2.facts.order), None))
+                    return s2.facts.assume_variant(nxt_none, "None")
+
+                def iter_alt(s2, it=it, kstr=kstr, nxt_some=nxt_some):
+                    s2.trace.append(("loop", kstr, {}, fr.body.defp))
+                    s2.trace.append(("call", "<synthetic as std::iter::Iterator>::next", (it,), nxt_some, site, "", None, len(s2.facts.order), None))
+                    return s2.facts.assume_variant(nxt_some, "Some")
+                alts = [(exit_alt, done_val), (iter_alt, ("__inline__", act[1], act[2], act[3]))]
+                if name == "try_for_each":
+                    errv = ("call", "<synthetic>::try_for_each_break", (it, args[1]), kstr + "#err")
+
+                    def err_alt(s2, errv=errv, kstr=kstr):
+                        s2.trace.append(("loop", kstr, {}, fr.body.defp))
+                        return s2.facts.assume_variant(errv, "Err")
+                    alts.append((err_alt, errv))
+                return ("fork", alts)
         # --- Option / Result combinators with the closure applied on the matching variant
         comb = COMBINATORS.get(cn)
         if comb is not None and len(args) >= 1:
